@@ -77,4 +77,16 @@ def unsolicitedPoll (parked woken input wrote : Bool) : List Viol :=
 def afterEnd (op result streamState : String) : List Viol :=
   if result == "pending" then [s!"C07 {op}-still-pending-after-the-connection-is-gone(stream:{streamState})"] else []
 
+/-- C15: the connection's result reports the peer's error.  `codes`: the error codes of the GOAWAY frames
+    received, oldest first; `result`: how the connection future completed (`done` = Ok,
+    `goaway-remote` with `resultCode`, anything else = an error of our own / of the transport).
+    A result that blames the peer must name a code the peer sent, and when the peer's LAST word was an
+    error the connection must not finish as if nothing had happened. -/
+def connResult (codes : List Nat) (result : String) (resultCode : Nat) : List Viol :=
+  (if result == "goaway-remote" && !codes.contains resultCode then
+    ["C15 connection-result-reports-a-code-the-peer-never-sent"] else []) ++
+  (match codes.getLast? with
+   | some c => if c ≠ 0 && result == "done" then ["C15 connection-result-hides-the-peers-GOAWAY-error"] else []
+   | none => [])
+
 end H2V.Spec.Verdict
